@@ -35,13 +35,24 @@ func ZzC16Move() {
 	st := zzNewSpecStore()
 	st.Append(ctx, chain[lo:hi+1]...)
 	g := &zzGetter{}
+	// the network may fail to deliver the tail header (unreachable peers, a height they pruned already)
+	gfail := zz.Param("GETTERFAIL", 0) == 1 && zz.Bool("getter.fails")
+	fetches := 0
 	g.getByHeight = func(_ context.Context, h uint64) (*zh.Hdr, error) {
+		fetches++
+		if gfail {
+			return nil, header.ErrNotFound
+		}
 		if h < 1 || h > uint64(len(chain)) {
 			return nil, header.ErrNotFound
 		}
 		return chain[h-1], nil
 	}
 	g.get = func(_ context.Context, hash header.Hash) (*zh.Hdr, error) {
+		fetches++
+		if gfail {
+			return nil, header.ErrNotFound
+		}
 		for _, c := range chain {
 			if string(c.Hash()) == string(hash) {
 				return c, nil
@@ -92,6 +103,15 @@ func ZzC16Move() {
 	tail, err := s.subjectiveTail(ctx, head)
 	zz.ObserveBool("err_nil", err == nil)
 	zz.Reach("moved")
+	if gfail && fetches > 0 {
+		// the tail had to come from the network and did not: an error, no panic, the Store as it was
+		zz.Reach("tail-fetch-failed")
+		zz.Assert(err != nil, "a failed fetch of the new tail is reported as an error")
+		t2, e2 := st.Tail(ctx)
+		h2, e3 := st.Head(ctx)
+		zz.Assert(e2 == nil && e3 == nil && t2.H == chain[lo].H && h2.H == chain[hi].H && st.zzContiguous(), "a failed fetch of the new tail leaves the Store untouched")
+		return
+	}
 	// known finding: the tail moved down onto the header right below a store that holds a single header:
 	// the diff [new tail+1, old tail] is the old tail = current head alone, and syncStore.Append refuses a
 	// batch that starts at the head height as non-adjacent
